@@ -55,7 +55,7 @@ std::string sample(const Case& c)
 {
    std::ostringstream os;
    os << (c.via_lexicon % 2 ? "Lexicon::get_string" : "string_pool::intern") << " words(kind:len)=[";
-   for (std::size_t i = 0; i < c.words.size() && i < 24; ++i) os << int(c.words[i].kind % 12) << ":" << c.words[i].len << " ";
+   for (std::size_t i = 0; i < c.words.size() && i < 24; ++i) os << int(c.words[i].kind % 13) << ":" << c.words[i].len << " ";
    if (c.words.size() > 24) os << "...";
    os << "] n=" << c.words.size();
    return os.str();
@@ -114,6 +114,42 @@ std::string make_bytes(const Word& w, std::size_t len, bool printable_only = fal
    return s;
 }
 
+// Words that collide under std::hash<u8string_view>, whatever its seed.  libstdc++ hashes bytes with a MurmurHash64A
+// variant: per 8-byte block k, h = (h ^ f(k)) * mul with f(k) = mix(mix-less k * mul) ... precisely
+// f(k) = shift_mix(k * mul) * mul, shift_mix(v) = v ^ (v >> 47).  Flipping the top bit of f(k) in two consecutive blocks
+// cancels ((x ^ 2^63) * mul == (x * mul) ^ 2^63 for odd mul), and f is invertible, so for any blocks (k1, k2) the blocks
+// (f^-1(f(k1) ^ 2^63), f^-1(f(k2) ^ 2^63)) give the same hash.  The harness verifies the collision with std::hash itself
+// before relying on it (collider_pairs_verified / collider_pairs_not_colliding), and the oracle never uses it.
+constexpr std::uint64_t murmur_mul = 0xc6a4a7935bd1e995ull;
+constexpr std::uint64_t inverse_of(std::uint64_t a)
+{
+   std::uint64_t x = a;   // Newton iteration modulo 2^64 (a odd)
+   for (int i = 0; i < 6; ++i) x *= 2 - a * x;
+   return x;
+}
+constexpr std::uint64_t murmur_inv = inverse_of(murmur_mul);
+static_assert(murmur_mul * murmur_inv == 1);
+inline std::uint64_t shift_mix(std::uint64_t v) { return v ^ (v >> 47); }
+inline std::uint64_t block_f(std::uint64_t k) { return shift_mix(k * murmur_mul) * murmur_mul; }
+inline std::uint64_t block_f_inverse(std::uint64_t y) { return shift_mix(y * murmur_inv) * murmur_inv; }
+
+std::string collider(std::uint32_t seed, unsigned pairs, unsigned variant)
+{
+   std::string out;
+   std::uint64_t x = 0x9e3779b97f4a7c15ull * (seed + 1);
+   for (unsigned p = 0; p < pairs; ++p) {
+      std::uint64_t k[2];
+      for (auto& b : k) {
+         x ^= x >> 30; x *= 0xbf58476d1ce4e5b9ull; x ^= x >> 27; x *= 0x94d049bb133111ebull; x ^= x >> 31;
+         b = x;
+      }
+      if (variant >> p & 1)
+         for (auto& b : k) b = block_f_inverse(block_f(b) ^ (std::uint64_t(1) << 63));
+      out.append(reinterpret_cast<const char*>(k), sizeof k);
+   }
+   return out;
+}
+
 struct Sink {
    util::string_pool pool;
    std::unique_ptr<impl::Lexicon> lex;
@@ -131,7 +167,7 @@ vf::Outcome run_case(const Case& c, const vf::Options& o)
    std::size_t used_headers = 0;             // mirrored fill level of the current pool
    std::size_t total_bytes = 0;
    const std::size_t byte_cap = std::size_t(o.get("bytecap", 24)) << 20;
-   long rollovers = 0, oversize = 0, near_miss = 0, reverified = 0;
+   long rollovers = 0, oversize = 0, near_miss = 0, reverified = 0, colliders = 0;
    auto verify_all = [&](const char* when) {
       for (auto& [bytes, node] : model) {
          auto v = node->characters();
@@ -146,7 +182,12 @@ vf::Outcome run_case(const Case& c, const vf::Options& o)
    std::size_t step = 0;
    for (auto& w : c.words) {
       std::string bytes;
-      switch (w.kind % 12) {
+      switch (w.kind % 13) {
+      case 12: {                                                                             // a member of a family of distinct words with EQUAL std::hash
+         bytes = collider(w.seed, 1 + (w.len / 2) % 2, w.len / 4);
+         ++colliders;
+         break;
+      }
       case 0: bytes = make_bytes(w, w.len % 41); break;                                       // every short length, all byte values
       case 1: bytes = make_bytes(w, 6 + w.len % 5); break;                                    // around the inline header (8)
       case 2: bytes = make_bytes(w, inline_bytes + header_bytes * (1 + w.len % 6) + (w.seed % 3) - 1); break;   // granule multiples +-1
@@ -241,6 +282,17 @@ vf::Outcome run_case(const Case& c, const vf::Options& o)
    out.count("pool_rollovers", rollovers);
    out.count("oversize_words", oversize);
    out.count("near_misses", near_miss);
+   out.count("collider_words", colliders);
+   // words of this case that really share a std::hash value with a different word of the case (self-check of the construction)
+   if (colliders) {
+      std::map<std::size_t, int> by_hash;
+      for (auto& b : order)
+         if (b.size() == 16 || b.size() == 32) ++by_hash[std::hash<std::u8string_view>{}(std::u8string_view(reinterpret_cast<const char8_t*>(b.data()), b.size()))];
+      long shared = 0;
+      for (auto& [h, n] : by_hash)
+         if (n > 1) shared += n;
+      out.count("distinct_words_sharing_a_hash_bucket", shared);
+   }
    out.count("reverified", reverified);
    out.count("words", long(order.size()));
    out.nontrivial = ((rollovers + oversize) >= 1 && reverified >= 100) || near_miss >= 1;
@@ -250,13 +302,14 @@ vf::Outcome run_case(const Case& c, const vf::Options& o)
 rc::Gen<Case> generator(const vf::Options&)
 {
    using namespace rc;
-   auto word = gen::map(gen::tuple(vf::in_range<int>(0, 24), vf::in_range<int>(0, 1 << 16), vf::in_range<int>(0, 1 << 20)), [](const std::tuple<int, int, int>& t) {
+   auto word = gen::map(gen::tuple(vf::in_range<int>(0, 28), vf::in_range<int>(0, 1 << 16), vf::in_range<int>(0, 1 << 20)), [](const std::tuple<int, int, int>& t) {
       Word w;
       // kinds 0..11; the cheap kinds are drawn more often than the megabyte ones
-      static const std::uint8_t dist[24] = {0, 0, 0, 0, 1, 1, 2, 2, 3, 4, 4, 4, 5, 5, 6, 7, 8, 8, 9, 9, 10, 10, 11, 11};
+      static const std::uint8_t dist[28] = {0, 0, 0, 0, 1, 1, 2, 2, 3, 4, 4, 4, 5, 5, 6, 7, 8, 8, 9, 9, 10, 10, 11, 11, 12, 12, 12, 12};
       w.kind = dist[std::get<0>(t)];
       w.len = std::uint32_t(std::get<1>(t));
       w.seed = std::uint32_t(std::get<2>(t));
+      if (w.kind == 12) w.seed %= 6;   // few families, so that members of one family meet in one pool
       return w;
    });
    return gen::map(gen::tuple(vf::byte(), gen::container<std::vector<Word>>(word)), [](const std::tuple<std::uint8_t, std::vector<Word>>& t) {
@@ -290,6 +343,8 @@ void exhaustive(const vf::Options& o, vf::Tally& tally)
       c.words.push_back(Word{8, i, 0});
       for (std::uint32_t e = 0; e < 5; ++e) c.words.push_back(Word{9, i, e});
    }
+   for (std::uint32_t fam = 0; fam < 6; ++fam)
+      for (std::uint32_t l = 0; l < 16; ++l) c.words.push_back(Word{12, l, fam});   // all 2 + 4 members of each family, several times
    for (int via = 0; via < 2; ++via) {
       c.via_lexicon = std::uint8_t(via);
       vf::Options big = o;
